@@ -6,6 +6,10 @@ HERE = os.path.dirname(os.path.abspath(__file__))
 
 # property -> (technique, level text, level note, design ref); only properties with a working monitor are listed
 CLAIMED = {
+    "C01": ("online reference-model monitor: real Value/Collection stepped in lock-step with a sequential register/map model, events observed at quiescent points",
+            "Runtime monitoring: every single call over a small id/value alphabet x every subset of the write options from three pre-states and two configurations (bounded-exhaustive), all length-2 (thorough: length-3) sequences over a covering option set, and long random sequences on four message types are executed on the real resource; return value, error class, callback and interceptor counts, the Get/List after the call and the events seen by a backpressured subscriber are compared with the model after every step.",
+            "The model is written from pkg/resource doc comments and the property text (DESIGN.md appendix C); where several preconditions fail at once any of their codes is accepted; nested update-mask paths through oneof members and overlapping mask paths are left to C05/C06.",
+            "DESIGN.md §4 C01, appendix C"),
     "C18": ("reference-model monitor (dense-timeline / step-function brute-force oracle) over exhaustive small grids and random inputs",
             "Runtime monitoring: every period pair on a small exhaustive grid, random 64-bit-range timestamps and random segment/mode lists are run through the real functions and compared with brute-force mathematical oracles; arguments are shadow-copied to detect mutation. Held on the executions listed in the evidence, nothing more.",
             "Oracles are written from the property text; float32 magnitudes are small integers so arithmetic is exact; inputs outside the stated domain (inverted periods) are counted, not judged.",
